@@ -36,7 +36,7 @@ func (valdec arrayDecoder) Decode(dec *Decoder, p interface{}, tag byte) {
 		valdec.at.UnsafeSet(reflect2.PtrOf(p), valdec.empty)
 	case TagList:
 		length := valdec.at.Len()
-		count := dec.ReadInt()
+		count := dec.ReadCount()
 		array := reflect2.PtrOf(p)
 		dec.AddReference(p)
 		n := length
